@@ -105,6 +105,7 @@ from prompt_toolkit.layout.processors import (
     ReverseSearchProcessor,
     merge_processors,
 )
+from prompt_toolkit.layout.screen import Char
 from prompt_toolkit.layout.utils import explode_text_fragments
 from prompt_toolkit.lexers import DynamicLexer, Lexer
 from prompt_toolkit.output import ColorDepth, DummyOutput, Output
@@ -1053,8 +1054,17 @@ class PromptSession(Generic[_T]):
         cursor movements. Instead we only print the typed character that's
         right before the cursor.
         """
+
+        def display(text: str) -> str:
+            # Show control characters the way the renderer does ("^A",
+            # "<9b>"), we can't send them to the terminal. Newlines stay.
+            mappings = Char.display_mappings
+            return "".join(c if c == "\n" else mappings.get(c, c) for c in text)
+
         # Send prompt to output.
-        self.output.write(fragment_list_to_text(to_formatted_text(self.message)))
+        self.output.write(
+            display(fragment_list_to_text(to_formatted_text(self.message)))
+        )
         self.output.flush()
 
         # Key bindings for the dumb prompt: mostly the same as the full prompt.
@@ -1074,7 +1084,9 @@ class PromptSession(Generic[_T]):
         )
 
         def on_text_changed(_: object) -> None:
-            self.output.write(self.default_buffer.document.text_before_cursor[-1:])
+            self.output.write(
+                display(self.default_buffer.document.text_before_cursor[-1:])
+            )
             self.output.flush()
 
         self.default_buffer.on_text_changed += on_text_changed
